@@ -86,7 +86,7 @@ PROPS = {
                 rule="seeded byte/token-level mutations of valid programs (delete / insert / replace / duplicate spans; alphabet incl. NUL, DEL, non-ASCII, NBSP), "
                      "size families (10^5 digits, 5000 lines, 70 000-character strings, macro chains), empty input, no final newline — run by the real binary under a "
                      "watchdog (exit 101 / signal / timeout is a violation) and compared with the model; L2 malformed lines against the interpreter in-process"),
-    "C16": dict(modules=["Emu8086.Props.C16"], runs=[("l4", "diag", {"VERIF_STRICT_OUT": "1"}), ("l4", "prompt", {"VERIF_STRICT_OUT": "1"}), ("l4", "run", {"VERIF_STRICT_OUT": "1"})], gen=["Arch", "ILiterals", "PPGrammar"],
+    "C16": dict(modules=["Emu8086.Props.C16", "Emu8086.Props.C16Map"], runs=[("l4", "diag", {"VERIF_STRICT_OUT": "1"}), ("l4", "prompt", {"VERIF_STRICT_OUT": "1"}), ("l4", "run", {"VERIF_STRICT_OUT": "1"})], gen=["Arch", "ILiterals", "PPGrammar"],
                 rule="single-token corruptions at every token position of a valid program, error mutants with shifted lines / no trailing newline / comment lines, "
                      "stepping runs and prints/interrupts at first/middle/last lines and inside macros and procedures: line number, column and line text in the real "
                      "binary's messages must equal the model's (computed from the source map and byte offsets)"),
